@@ -11,6 +11,7 @@ import DracoProofs.BitTwiddle
 import DracoProofs.FoldedInst
 import DracoProofs.Direct
 import DracoProofs.SymbolBit
+import DracoProofs.EncBuf
 import Generated.Constants
 import Generated.FastDivTab
 /-
@@ -100,6 +101,45 @@ theorem getBit_past_end (r : BitReader) (h : r.cur = []) : r.getBit = (0, r) :=
   getBit_nil r h
 
 example : (BitReader.start []).getBit = (0, BitReader.start []) := getBit_past_end _ rfl
+
+/-- **All interleavings of bit-mode and byte-mode writes on one `EncoderBuffer`.**  The stateful buffer
+    (members `bit_encoder_reserved_bytes_`, `encode_bit_sequence_size_` surviving from one region to the
+    next) run on any sequence of well-formed items — raw scalars/blocks, varints, bit regions with or
+    without stored size, in any order — accepts every call and holds exactly the concatenation of the
+    items' specified bytes; no item disturbs what an earlier item wrote. -/
+theorem encoder_buffer_refines_items (items : List BufItem) (b : EncBuf) (hb : b.active = false)
+    (hw : ∀ it ∈ items, it.wf) :
+    ∃ b', b.runItems items = some b' ∧ b'.buffer = b.buffer ++ items.flatMap BufItem.enc ∧ b'.active = false :=
+  runItems_spec items b hb hw
+
+/-- … and a `DecoderBuffer` reading the same item shapes in the same order gets every value back
+    (bit groups masked to their width, region sizes as stored) and stops exactly at `rest`. -/
+theorem buffer_items_roundtrip (items : List BufItem) (b : EncBuf) (rest : Bytes)
+    (hb : b.active = false) (hw : ∀ it ∈ items, it.wf) (hr : ∀ it ∈ items, it.readable) :
+    ∃ b', b.runItems items = some b' ∧
+      decItems (items.map BufItem.shape) (b'.buffer.drop b.buffer.length ++ rest) = some (items.map BufItem.val, rest) := by
+  obtain ⟨b', h1, h2, _⟩ := runItems_spec items b hb hw
+  refine ⟨b', h1, ?_⟩
+  rw [h2, List.drop_left]
+  exact decItems_enc items rest hr
+
+/-- a region with stored size followed by one without, between byte-mode writes, on one buffer -/
+def sampleItems : List BufItem :=
+  [.raw [1, 2], .region true 40 [(3, 5), (32, 0xFFFFFFFF)], .varint 300, .region false 9 [(1, 1), (7, 0x55)], .raw [9]]
+
+theorem sampleItems_wf : ∀ it ∈ sampleItems, it.wf := by
+  intro it hit
+  simp only [sampleItems, List.mem_cons, List.not_mem_nil, or_false] at hit
+  rcases hit with rfl | rfl | rfl | rfl | rfl <;> simp [BufItem.wf, putBitsAll, bitsOf_length]
+
+theorem sampleItems_readable : ∀ it ∈ sampleItems, it.readable := by
+  intro it hit
+  simp only [sampleItems, List.mem_cons, List.not_mem_nil, or_false] at hit
+  rcases hit with rfl | rfl | rfl | rfl | rfl <;> simp [BufItem.readable, putBitsAll, bitsOf_length]
+
+example : ∃ b', ({} : EncBuf).runItems sampleItems = some b' ∧
+    decItems (sampleItems.map BufItem.shape) (b'.buffer.drop 0 ++ [7, 7]) = some (sampleItems.map BufItem.val, [7, 7]) :=
+  buffer_items_roundtrip sampleItems {} [7, 7] rfl sampleItems_wf sampleItems_readable
 
 /-! ### (c) fastdiv -/
 
